@@ -257,6 +257,33 @@ Section BRIDGE2.
         apply Hin. now apply in_firstn in Ht.
   Qed.
 
+  (* ORDER BY timestamp_ns <dir> without LIMIT (Plan(script, false)): the kept lines of some reordering, sorted *)
+  Lemma es_five_sorted_nl q swap e_ts e_fp e_lab e_str e_val w (T : list lstate) src out keep :
+    flat5 q (cols5 swap e_ts e_fp e_lab e_str e_val) w [Ord (Id "timestamp_ns") (c_asc c)] None ->
+    src_rows q = Some (map src T) ->
+    (forall t, List.In t T -> colsem e_ts e_fp e_lab e_str e_val (src t) (out t)) ->
+    (forall t, List.In t T -> cond_ok EV w (st_row swap (out t) ++ src t)%list = Some (keep t)) ->
+    exists ys, Permutation ys (map out (filter keep T))
+      /\ ES q = Some (map (st_row swap) (isort lts_leb ys)).
+  Proof.
+    intros Hf Hsrc Hcs Hw. rewrite (es_five q swap _ _ _ _ _ w _ _ T src out keep Hf Hsrc Hcs Hw).
+    destruct (order_groups_gen re_match parse_float json_get hash_labels tie tie_perm c d
+                [Ord (Id "timestamp_ns") (c_asc c)]
+                (fun t => [(st_row swap (out t) ++ src t)%list]) (fun t => [VInt (x_ts (fst (out t)))])
+                (filter keep T)) as [xs [Hperm Hord]].
+    - discriminate.
+    - intros t. cbn [map_opt ev]. rewrite (lookup_app_some _ _ _ (VInt (x_ts (fst (out t))))) by (destruct swap; reflexivity).
+      reflexivity.
+    - reflexivity.
+    - exists (map out xs). split; [now apply Permutation_map|].
+      match goal with |- match ?O with _ => _ end = _ => pose proof (Hord : O = _) as HO; rewrite HO end.
+      rewrite (isort_ext _ (fun a b => lts_leb (out a) (out b))) by (intros a b; unfold ord_dirs; cbn [map]; apply keys_leb_1).
+      assert (Hin : forall t, List.In t (isort (fun a b => lts_leb (out a) (out b)) xs) -> List.In t T).
+      { intros t Ht'. apply (Permutation_in _ (isort_perm _ xs)) in Ht'. apply (Permutation_in _ Hperm) in Ht'.
+        now apply filter_In in Ht'. }
+      rewrite (isort_map out lts_leb). rewrite !map_map. apply map_opt_map_total. intros t Ht. apply project5. apply Hcs. now apply Hin.
+  Qed.
+
   (* ================= Part B: the expressions the relabelling planners install ================= *)
   Lemma ev_map_update a b g : EV (Fn "mapUpdate" [a; b]) g =
     match EV a g, EV b g with Some (VMap m1), Some (VMap m2) => Some (VMap (map_update m1 m2)) | _, _ => None end.
